@@ -590,6 +590,7 @@ class ServerTls(Server):
         """
         for cx in self.cxes.values():
             cx.close()
+        self.cxes.clear()  # a closed connection can not complete its handshake
 
 
     def close(self):
